@@ -704,10 +704,15 @@ func (c *FnCtx) findLoops() {
 	}
 	// order loops by source position of header for stable ordinals
 	sort.SliceStable(c.loopList, func(i, j int) bool {
-		return c.loopPos(c.loopList[i]) < c.loopPos(c.loopList[j])
+		// go/ssa creates the blocks of a loop statement when it reaches the statement, so header
+		// block indices follow the source order of the loop statements (outer before inner)
+		return c.loopList[i].Header.Index < c.loopList[j].Header.Index
 	})
 	for i, l := range c.loopList {
 		l.Ord = i + 1
+		if os.Getenv("GOVC_DEBUG") != "" {
+			fmt.Fprintf(os.Stderr, "DEBUG %s loop %d header block %d pos %d nblocks %d\n", c.fnKey(), l.Ord, l.Header.Index, c.loopPos(l), len(l.Blocks))
+		}
 		inLoop := func(in ssa.Instruction) bool { return l.Blocks[in.Block()] }
 		for b := range l.Blocks {
 			for _, in := range b.Instrs {
